@@ -21,6 +21,10 @@ pub const PROP: PropDef = PropDef {
 struct D {
     reboot_refusals: usize,
     refused: usize,
+    /// session of the check whose first update-check attempt was made to fail (back-off wait as a blocking point)
+    failed_once: Option<usize>,
+    /// the first update-check attempt of every check fails in transit (instead of the server.update choice)
+    backoff_script: bool,
 }
 impl Director for D {
     fn check_allowed(&mut self, w: &mut Inner, opts: Src) -> CheckAns {
@@ -33,7 +37,17 @@ impl Director for D {
     fn http(&mut self, w: &mut Inner, req: &WireReq) -> HttpAns {
         match req.kind {
             ReqKind::UpdateCheck => {
-                let update = w.choose("server.update", 2) == 1;
+                if self.failed_once.is_some() && self.failed_once == req.session {
+                    // the retry after the back-off wait: answered, no update
+                    self.failed_once = None;
+                    return HttpAns::Resp(RespSpec::ok(response_bytes(&[AppDoc::new("app-A", Uc::NoUpdate)], &Daystart::Absent)));
+                }
+                let c = if self.backoff_script { 2 } else { w.choose("server.update", 2) };
+                if c == 2 {
+                    self.failed_once = req.session;
+                    return HttpAns::Transport;
+                }
+                let update = c == 1;
                 HttpAns::Resp(RespSpec::ok(response_bytes(
                     &[AppDoc::new("app-A", if update { Uc::OkManifest("2.0.0.0".into()) } else { Uc::NoUpdate })],
                     &Daystart::Absent,
@@ -330,6 +344,10 @@ enum DropMode {
 }
 
 fn run(ctx: &RunCtx, tier: Tier, n_total: usize) -> RunOut {
+    run_script(ctx, tier, n_total, false)
+}
+
+fn run_script(ctx: &RunCtx, tier: Tier, n_total: usize, backoff_script: bool) -> RunOut {
     let drop_mode = DropMode::None;
     let n_clients = if n_total > 1 { 1 + choose("clients", n_total) } else { 1 };
     let mut s = Setup::new(Mode::Start);
@@ -338,6 +356,8 @@ fn run(ctx: &RunCtx, tier: Tier, n_total: usize) -> RunOut {
     let d = D {
         reboot_refusals: 1 + choose("reboot_refusals", 2),
         refused: 0,
+        failed_once: None,
+        backoff_script,
     };
     let mut e = Exec::new(s, Box::new(d), Store::default());
     for c in 0..n_clients {
@@ -447,6 +467,8 @@ fn run_with_budget(ctx: &RunCtx, mode: DropMode) -> RunOut {
     let d = D {
         reboot_refusals: 1,
         refused: 0,
+        failed_once: None,
+        backoff_script: false,
     };
     let mut e = Exec::new(s, Box::new(d), Store::default());
     if n_clients > 0 {
@@ -519,6 +541,8 @@ fn run_no_timer(ctx: &RunCtx) -> RunOut {
     let d = D {
         reboot_refusals: 1 + choose("reboot_refusals", 2),
         refused: 0,
+        failed_once: None,
+        backoff_script: false,
     };
     let mut e = Exec::new(s, Box::new(d), Store::default());
     let o1 = [Src::Scheduled, Src::OnDemand][choose("options", 2)];
@@ -574,8 +598,8 @@ fn parts(tier: Tier) -> Vec<PartDef> {
         PartDef::new(
             name,
             Cfg::new(&format!("C11/{name}")).dev(d).free(&free_v),
-            json!({"clients": format!("1-{n_total} ({n_total} request(s) in total, dealt round-robin)"), "options": ["scheduled", "on-demand"], "machine_script": ["throttled", "no update", "update + install + reboot wait (refused once)"],
-                   "blocking_points": ["timers", "http", "plan", "install", "progress", "reboot"], "select_order": "choice point at every select! poll",
+            json!({"clients": format!("1-{n_total} ({n_total} request(s) in total, dealt round-robin)"), "options": ["scheduled", "on-demand"], "machine_script": ["throttled", "no update", "update + install + reboot wait (refused once or twice)"],
+                   "blocking_points": ["timers (incl. the back-off wait of a retry)", "http", "plan", "install", "progress", "reboot"], "select_order": "choice point at every select! poll",
                    "horizon_steps": tier.pick(40, 50), "exhaustive_choices": free_v, "deviation_bound_on_the_rest": d}),
             move |ctx| run(ctx, tier, n_total),
         )
@@ -592,6 +616,13 @@ fn parts(tier: Tier) -> Vec<PartDef> {
             one("three-requests", 0, &["clients", "options", "inject", "server.update"], 3),
         ],
     };
+    v.push(PartDef::new(
+        "requests-around-a-back-off-wait",
+        Cfg::new("C11/requests-around-a-back-off-wait").dev(tier.pick(0, 1)).free(&["clients", "options", "inject", "policy.check"]),
+        json!({"machine_script": "the first update-check attempt of every check fails in transit; the back-off timer is a blocking point; the retry is answered (no update)", "requests": "2 (one or two clients), options exhaustive, injected at every step",
+               "deviation_bound_on_the_rest": tier.pick(0, 1)}),
+        move |ctx| run_script(ctx, tier, 2, true),
+    ));
     v.push(PartDef::new(
         "wake-without-timer",
         Cfg::new("C11/wake-without-timer"),
